@@ -52,12 +52,25 @@ REPO = os.environ.get("VERIF_REPO", "/repo")
 _TABLE = None
 
 
+SNAPSHOT = os.path.join(os.path.dirname(os.path.dirname(os.path.abspath(__file__))), "meta", "C02.schema_snapshot.json")
+
+
 class Table:
     def __init__(self, tr):
-        self.tr = tr
+        self.tr = tr          # the translation of the tree under test, untouched (model side)
         self.ok = tr["ok"]
         self.errors = tr["errors"]
-        self.types = tr["types"]
+        # generator side: a type whose translation fails NOW (construct outside the idiom set) is
+        # still exercised by the oracle, with the field description of the committed snapshot
+        # (meta/C02.schema_snapshot.json, written by `tools/translate_rdtypes.py --snapshot`)
+        self.types = list(tr["types"])
+        if any(t["kind"] == "error" for t in self.types) and os.path.exists(SNAPSHOT):
+            import json
+
+            snap = {t["module"]: t for t in json.load(open(SNAPSHOT))["types"]}
+            for i, t in enumerate(self.types):
+                if t["kind"] == "error" and t["module"] in snap and snap[t["module"]]["kind"] == "schema":
+                    self.types[i] = dict(snap[t["module"]], from_snapshot=True, error=t.get("error"))
         self._by = {(t["rdclass"], t["rdtype"]): t for t in self.types}
         self._name = {}
         for t in self.types:
@@ -254,7 +267,7 @@ def gen_sfield(rng, fl, names, origin, profile):
     if k == "Fixed":
         return gen_bytes(rng, fl["n"])
     if k == "Counted":
-        return gen_bytes(rng, gen_len(rng, fl["lo"], fl["hi"], profile))
+        return gen_bytes(rng, gen_len(rng, fl["lo"], fl.get("gen_hi", fl["hi"]), profile))
     if k == "Name":
         return gen_name(rng, names, origin)
     raise ValueError(k)
@@ -814,7 +827,7 @@ def _field_corners(fl):
             out += [bytes([1, 2, 3, 4]), bytes([10, 0, 0, 255]), bytes([0, 0, 0, 1]), bytes([255, 0, 255, 0])]
         return out
     if k == "Counted":
-        lo, hi = fl["lo"], fl["hi"]
+        lo, hi = fl["lo"], fl.get("gen_hi", fl["hi"])
         lens = sorted({lo, min(hi, lo + 1), min(hi, 127), min(hi, 128), min(hi, 255), min(hi, 256), min(hi, 1024)})
         out = [b"\xff" * n for n in lens] + [bytes(min(hi, max(lo, 3)))]
         return out
